@@ -3854,3 +3854,159 @@ let nx_edges g =
 
 let varlike_id s =
   (&&) (negb (head_is '`' s)) (has_char '[' s)
+
+(** val wsn : bool -> char list -> bool **)
+
+let rec wsn prev_space = function
+| [] -> true
+| c::r ->
+  if is_space c
+  then (&&) ((&&) ((=) c ' ') (negb prev_space)) (wsn true r)
+  else wsn false r
+
+(** val no_open_ws : bool -> char list -> bool **)
+
+let rec no_open_ws prev_open = function
+| [] -> true
+| c::r -> (&&) (negb ((&&) prev_open (is_space c))) (no_open_ws ((=) c '(') r)
+
+(** val no_ws_close : char list -> bool **)
+
+let rec no_ws_close = function
+| [] -> true
+| c::r -> (&&) (negb ((&&) (is_space c) (head_is ')' r))) (no_ws_close r)
+
+(** val normal : char list -> bool **)
+
+let normal t =
+  (&&) ((&&) (wsn false t) (no_open_ws false t)) (no_ws_close t)
+
+(** val dz : z -> char list **)
+
+let dz k =
+  if Z.ltb Z0 k then append ('+'::[]) (string_of_Z k) else string_of_Z k
+
+(** val didx : pidx -> char list **)
+
+let didx = function
+| IInt k -> dz k
+| IStr s -> s
+
+(** val dtext : ntok -> char list **)
+
+let dtext x = match x with
+| NTerm (name, i) ->
+  append name (append ('['::[]) (append (didx i) (']'::[])))
+| _ -> ntok_text x
+
+(** val dflat : ntok list -> char list **)
+
+let rec dflat = function
+| [] -> []
+| x :: r -> append (dtext x) (dflat r)
+
+(** val denorm_text : neq -> char list **)
+
+let denorm_text q =
+  append (dflat q.nlhs) (append ('='::[]) (dflat q.nrhs))
+
+(** val tok_term : ptype -> ntok -> term option **)
+
+let tok_term ty = function
+| NTerm (name, i) -> Some { tname = name; ttype = ty; tindex = (Some i) }
+| NFunc name -> Some { tname = name; ttype = TFunction; tindex = None }
+| NKw k -> Some { tname = k; ttype = TKeyword; tindex = None }
+| NVerb body ->
+  Some { tname = ('`'::(append body ('`'::[]))); ttype = TVerbatim; tindex =
+    (Some (IInt Z0)) }
+| NChr _ -> None
+
+(** val tok_code : ntok -> char list **)
+
+let tok_code x = match x with
+| NChr c -> c::[]
+| _ ->
+  (match tok_term TExogenous x with
+   | Some t -> (match term_code t with
+                | Some s -> s
+                | None -> [])
+   | None -> [])
+
+(** val cflat : ntok list -> char list **)
+
+let rec cflat = function
+| [] -> []
+| x :: r -> append (tok_code x) (cflat r)
+
+(** val neq_code : neq -> char list **)
+
+let neq_code q =
+  append (cflat q.nlhs) (append ('='::[]) (cflat q.nrhs))
+
+(** val ttemplate : ntok list -> char list **)
+
+let rec ttemplate = function
+| [] -> []
+| n0 :: r ->
+  (match n0 with
+   | NChr c -> c::(ttemplate r)
+   | _ -> append ('{'::('}'::[])) (ttemplate r))
+
+(** val dtok_ok : bool -> ntok -> char list -> bool **)
+
+let dtok_ok pw x rest =
+  match x with
+  | NTerm (name, i) ->
+    (&&) ((&&) ((&&) (is_ident name) (kw_free name)) (idx_ok (didx i)))
+      (match i with
+       | IInt k -> negb (Nat.ltb int_max_str_digits (count_digits (dz k)))
+       | IStr s -> (||) (quoted_by '\'' s) (quoted_by '"' s))
+  | _ -> ntok_ok pw x rest
+
+(** val dwf_k : bool -> ntok list -> char list -> bool **)
+
+let rec dwf_k pw l k =
+  match l with
+  | [] -> true
+  | x :: r ->
+    (&&) (dtok_ok pw x (append (dflat r) k))
+      (dwf_k (last_word pw (dtext x)) r k)
+
+(** val text_char_ok : char -> bool **)
+
+let text_char_ok c =
+  (&&)
+    ((&&) ((&&) (negb (is_linesep c)) (negb ((=) c '#'))) (negb ((=) c '{')))
+    (negb ((=) c '}'))
+
+(** val dq_ok : neq -> bool **)
+
+let dq_ok q =
+  match q.nlhs with
+  | [] -> false
+  | n0 :: ws ->
+    (match n0 with
+     | NTerm (y, i) ->
+       (match i with
+        | IInt ky ->
+          (&&)
+            ((&&)
+              ((&&)
+                ((&&)
+                  ((&&)
+                    ((&&) ((&&) (is_ident y) (kw_free y))
+                      (negb
+                        (Nat.ltb int_max_str_digits (count_digits (dz ky)))))
+                    (forallb (fun x ->
+                      match x with
+                      | NChr c -> is_space c
+                      | _ -> false) ws)) (dwf_k false q.nrhs []))
+                (all_chars text_char_ok (denorm_text q)))
+              (match count_parens O (denorm_text q) with
+               | Some n1 -> (match n1 with
+                             | O -> true
+                             | S _ -> false)
+               | None -> false))
+            (normal (ttemplate (app q.nlhs ((NChr '=') :: q.nrhs))))
+        | IStr _ -> false)
+     | _ -> false)
